@@ -188,13 +188,18 @@ func guard(f func()) (panicked bool) {
 
 var hangs = map[string]int{}
 
+// skipped is set when the last guardT call was not made (site already hung twice)
+var skipped bool
+
 // guardT runs f under recover and a 2 s watchdog.  A call that does not return is
 // abandoned (its goroutine keeps spinning until the process exits); after two hangs
 // at the same site further calls at that site are reported as hung without being made.
 func guardT(f func(), site string) (panicked, hung bool) {
 	if site != "" && hangs[site] >= 2 {
+		skipped = true
 		return false, true
 	}
+	skipped = false
 	done := make(chan bool, 1)
 	go func() {
 		defer func() {
